@@ -6,7 +6,8 @@ Translated (regenerated on every check run, compared with the committed cache):
                 handler macros (name, handler function); read_macro_params: the name given to a bare `...`
 Pinned (hand-modelled in Model/PP.lean; the translator checks that the source still has the shape the hand model
 was written after and raises ExtractError otherwise): the order of the arms of subst(), the hide-set expressions
-of expand_macro(), the flag propagation guards, join_tokens' spacing test, is_hash().
+of expand_macro(), the flag propagation guards, join_tokens' spacing test, is_hash(), the copy loop of stringize()
+(which tokens are escaped: TK_STR and TK_NUM, the latter being character constants while the preprocessor runs).
 """
 import re
 from common import *
@@ -85,6 +86,16 @@ PINNED = [
                            r'if \(equal\(tok, "\("\)\) level\+\+; else if \(equal\(tok, "\)"\)\) level--;', 'read_macro_arg_one loop'),
     ('read_macro_definition', r'if \(!tok->has_space && !tok->at_bol && equal\(tok, "\("\)\) \{', 'function-like rule of read_macro_definition'),
     ('quote_string', r'if \(str\[i\] == \'\\\\\' \|\| str\[i\] == \'"\'\) \*p\+\+ = \'\\\\\'; \*p\+\+ = str\[i\];', 'quote_string escaping'),
+    # stringize after `fix:` 6fecbd6: the whole copy loop and the tail (Model/PP.lean strzLoop / strzCopy / stringize)
+    ('stringize', r'char \*buf = calloc\(1, len\); int pos = 0; buf\[pos\+\+\] = \'"\'; '
+                  r'for \(Token \*t = arg; t->kind != TK_EOF; t = t->next\) \{ '
+                  r'if \(t != arg && \(t->has_space \|\| t->at_bol\)\) buf\[pos\+\+\] = \' \'; '
+                  r'for \(int i = 0; i < t->len; i\+\+\) \{ '
+                  r'if \(\(t->kind == TK_STR \|\| t->kind == TK_NUM\) && \(t->loc\[i\] == \'\\\\\' \|\| t->loc\[i\] == \'"\'\)\) buf\[pos\+\+\] = \'\\\\\'; '
+                  r'buf\[pos\+\+\] = t->loc\[i\]; \} \} buf\[pos\+\+\] = \'"\'; buf\[pos\] = \'\\0\'; '
+                  r'Token \*tok = tokenize\(new_file\(hash->file->name, hash->file->file_no, buf\)\); '
+                  r'tok->line_no = hash->line_no; return tok;$',
+     'stringize: the copy loop (escape only inside TK_STR / TK_NUM tokens, one space for has_space || at_bol) and the result token'),
 ]
 
 SIGS = {
@@ -98,6 +109,7 @@ SIGS = {
     'read_macro_arg_one': r'static\s+MacroArg\s*\*\s*read_macro_arg_one\s*\(\s*Token\s*\*\*\s*rest\s*,\s*Token\s*\*\s*tok\s*,\s*bool\s+read_rest\s*\)\s*\{',
     'read_macro_definition': r'static\s+void\s+read_macro_definition\s*\(\s*Token\s*\*\*\s*rest\s*,\s*Token\s*\*\s*tok\s*\)\s*\{',
     'quote_string': r'static\s+char\s*\*\s*quote_string\s*\(\s*char\s*\*\s*str\s*\)\s*\{',
+    'stringize': r'static\s+Token\s*\*\s*stringize\s*\(\s*Token\s*\*\s*hash\s*,\s*Token\s*\*\s*arg\s*\)\s*\{',
 }
 
 
@@ -163,6 +175,14 @@ def generate(repo):
     if not m:
         raise ExtractError('has_varargs has a shape the translator does not understand')
     has_va_name = c_string(m.group(1))
+
+    # ---- token kinds while the preprocessor runs: the one TK_NUM token tokenize() makes is the character constant
+    #      (numbers are TK_PP_NUM until convert_pp_tokens); Model/PP.lean `Kind.other` = that TK_NUM, `Kind.num` = TK_PP_NUM
+    if len(re.findall(r'new_token\(TK_NUM\b', tsrc)) != 1 or len(re.findall(r'new_token\(TK_PP_NUM\b', tsrc)) != 1:
+        raise ExtractError('tokenize.c: expected exactly one new_token(TK_NUM, ..) and one new_token(TK_PP_NUM, ..)')
+    cl = norm(function_body(tsrc, r'static\s+Token\s*\*\s*read_char_literal\s*\(', 'read_char_literal'))
+    if 'new_token(TK_NUM, start, end + 1)' not in cl:
+        raise ExtractError('read_char_literal no longer makes the TK_NUM token (stringize escapes inside TK_STR and TK_NUM tokens)')
 
     # ---- pinned shapes
     for fn, rx, what in PINNED:
